@@ -9,9 +9,9 @@ import serverlib as sl
 
 
 def acl_gen(r, thorough):
-    return sl.acl_histories(r, thorough, types=("read",))
+    return sl.acl_histories(r, thorough, types=("read",)) + sl.stalled_resume_histories(r, thorough)
 
 
 def run(tier, replay=None):
     return srvprops.run(PROP, THEOREMS, tier, replay, extra_gen=acl_gen,
-                        rule_note="plus directed ACL histories (multi-domain allow-lists edited by add/remove batches, then probed by broadcasts)")
+                        rule_note="plus directed ACL histories (multi-domain allow-lists edited by add/remove batches, then probed by broadcasts) and readers that stall on a tiny socket buffer while large broadcasts queue up and other clients cycle the message-buffer pool, then read on (every frame intact and attributed correctly)")
